@@ -34,6 +34,7 @@ type Object struct {
 	root  Value
 	typ   types.Type // type of root
 	label string
+	sess  *Session // non-nil: created by a package initialiser and shared between paths (writes are journaled)
 }
 
 type PtrV struct {
@@ -77,6 +78,7 @@ type MapObj struct {
 	id      int
 	entries []*MapEntry
 	kt, vt  types.Type
+	sess    *Session // as Object.sess
 }
 type MapV struct{ m *MapObj }
 
@@ -245,6 +247,9 @@ func (o *Object) load(path []int) Value {
 }
 
 func (o *Object) store(path []int, nv Value) {
+	if o.sess != nil {
+		o.sess.touchObj(o)
+	}
 	o.root = setPath(o.root, path, nv, true)
 }
 
@@ -258,6 +263,9 @@ func (o *Object) array(path []int) *ArrayV {
 }
 
 func (o *Object) setElem(path []int, i int, nv Value) {
+	if o.sess != nil {
+		o.sess.touchObj(o)
+	}
 	if len(path) == 0 {
 		a := o.root.(*ArrayV)
 		if a.cow {
@@ -286,3 +294,47 @@ func constInt(t *Term) (int, bool) {
 }
 
 func bigU(v uint64) *big.Int { return new(big.Int).SetUint64(v) }
+
+// ---------------------------------------------------------------------------
+// objects created by package initialisers are shared between the paths of a
+// session; a path's writes to them are undone when the path ends
+
+func (s *Session) touchObj(o *Object) {
+	if s.initDepth > 0 || s.touched[o] {
+		return
+	}
+	s.touched[o] = true
+	old := o.root
+	if a, ok := old.(*ArrayV); ok {
+		a.cow = true // the write that follows clones instead of updating in place
+	}
+	s.undo = append(s.undo, func() { o.root = old })
+}
+
+func (s *Session) touchMap(m *MapObj) {
+	if s.initDepth > 0 || s.touchedMaps[m] {
+		return
+	}
+	s.touchedMaps[m] = true
+	old := m.entries
+	cp := make([]*MapEntry, len(old))
+	for i, e := range old {
+		c := *e
+		cp[i] = &c
+	}
+	m.entries = cp
+	s.undo = append(s.undo, func() { m.entries = old })
+}
+
+func (s *Session) endPath() {
+	for i := len(s.undo) - 1; i >= 0; i-- {
+		s.undo[i]()
+	}
+	s.undo = s.undo[:0]
+	for k := range s.touched {
+		delete(s.touched, k)
+	}
+	for k := range s.touchedMaps {
+		delete(s.touchedMaps, k)
+	}
+}
